@@ -625,8 +625,8 @@ func init() {
 		Rule: "case = a seeded scenario of 2-3 (thorough: up to 5) concurrent requests on one server drawn from eleven families (a client Update of an object while peers like it, duplicate inbox POSTs, different activities to one inbox, one activity to two inboxes, Likes/Announces of one object, Follows with auto-accept, Accepts, Adds, client POSTs / Send, forwarding over the same collections in different orders, GET readers); " +
 			"per case: all sequential permutations (<=3 requests; 6 sampled beyond) as reference, then seeded schedules (fifo, random walk, sticky, PCT with 1-3 priority change points) at seam granularity (Database, Transport, callbacks, clock reads, response writes; with the real HttpSigTransport in 1/6 of the cases also its goroutines and mutexes); network duplication of deliveries (net_dup); every third case a single-fault class (one seam call fails under a random schedule: everything must still complete), every fourth a crash class (the server dies at a random step, locks vanish, the database survives, the peers redeliver); " +
 			"oracles: completion (deadlock detection), per-collection multiset equality with some sequential execution, porcupine linearizability of inbox/outbox posts and reads, duplicate handling. distinct = distinct (task, seam kind, result class) event sequences, i.e. distinct interleavings at seam granularity.",
-		QuickCases:      64,
-		QuickBudgetS:    60,
+		QuickCases:      160,
+		QuickBudgetS:    150,
 		ThoroughBudgetS: 600,
 		ExpectProbes:    []string{"lock-contention", "nested-delivery"},
 		Drive:           driveC08,
